@@ -285,7 +285,9 @@ Proof. exact source_root_transition_legal. Qed.
 Print Assumptions C01_source_root_transition_restarts.
 
 (* ... and one whole EVENT: `process_event_src` selects with the re-translated _select_transitions (each guard through the
-   model's evaluation of it) and executes every selected transition with the re-translated geometry.  On every state that
+   model's evaluation of it), skips a stale winner by the re-translated test of _process_event, DISPATCHES each selected transition
+   by the re-translated decision of _execute_transition / _execute_transition_sync (actions only / not found / internal /
+   external) and executes an external one along the re-translated plan.  On every state that
    satisfies the run invariant - hence on every state of every run - and whenever every consulted guard answers (no missing
    implementation), it is the model's `process_event`; so the event step AS THE SOURCE DECIDES IT keeps the configuration
    legal and the history store consistent.  What stays hand-modelled in this step are the effects (entering, exiting, running
